@@ -131,6 +131,19 @@ def dyadic_any(rng, M):
     return [rng.randrange(-16, 33) / 8 for _ in range(M)]
 
 
+KEY_POOL = ["paid_model", "incurred_model", "bf", "cl", "zeta", "alpha", "t2", "t1", "t10", "m", "a", "Z", "b",
+            "tri2", "tri1", "prior", "blend", "x", "Ünder", "_"]
+
+
+def dict_keys(rng, M):
+    """M distinct dict keys in RANDOM insertion order (mostly not alphabetical): the rows of the weight
+    matrix follow INSERTION order, never key order"""
+    ks = rng.sample(KEY_POOL, M)
+    if M > 1 and rng.random() < 0.5:
+        ks = sorted(ks, reverse=True)
+    return ks
+
+
 def make_weights(rng, M, n_cells, method, convex):
     """(python weights object, per-cell convex flag)"""
     form = rng.choice(["none", "list", "list", "dict1", "dict1", "dictn", "dictn", "dictmat"])
@@ -145,21 +158,22 @@ def make_weights(rng, M, n_cells, method, convex):
     if form == "dict1":
         w = vec()
         style = rng.choice(["list", "scalar", "2d", "np"])
-        d = {}
+        d, ks = {}, dict_keys(rng, M)
         for j, x in enumerate(w):
-            d[f"t{j}"] = {"list": [x], "scalar": x, "2d": np.array([[x]]), "np": np.array([x])}[style]
+            d[ks[j]] = {"list": [x], "scalar": x, "2d": np.array([[x]]), "np": np.array([x])}[style]
         return d, "dict-global"
     cols = [vec() for _ in range(n_cells)]           # cols[i][j] = weight of triangle j at cell i
     if form == "dictn":
         style = rng.choice(["list", "np", "2d"])
-        d = {}
+        d, ks = {}, dict_keys(rng, M)
         for j in range(M):
             row = [cols[i][j] for i in range(n_cells)]
-            d[f"t{j}"] = {"list": row, "np": np.array(row), "2d": np.array([row])}[style]
+            d[ks[j]] = {"list": row, "np": np.array(row), "2d": np.array([row])}[style]
         return d, "dict-percell"
     mat = np.array([[cols[i][j] for i in range(n_cells)] for j in range(M)], dtype=float)
     if M >= 2 and rng.random() < 0.5:
-        return {"a": mat[:1], "b": mat[1:]}, "dict-matrix"
+        ka, kb = dict_keys(rng, 2)
+        return {ka: mat[:1], kb: mat[1:]}, "dict-matrix"
     return {"all": mat}, "dict-matrix"
 
 
@@ -235,8 +249,9 @@ def one_case(rng, stream):
         vals, S = make_values(rng, skel, M, method)
         degenerate = rng.randrange(M)
         e = [1.0 if j == degenerate else 0.0 for j in range(M)]
-        weights = rng.choice([e, {f"t{j}": [x] for j, x in enumerate(e)},
-                              {f"t{j}": [x] * n for j, x in enumerate(e)}])
+        ks = dict_keys(rng, M)
+        weights = rng.choice([e, {ks[j]: [x] for j, x in enumerate(e)},
+                              {ks[j]: [x] * n for j, x in enumerate(e)}])
         wform = "degenerate"
     seed = rng.choice([None, 0, 1, 1234, rng.randrange(1 << 31)]) if method == "mixture" else rng.choice([None, 7])
     tris = [build(kind, skel, vals[j]) for j in range(M)]
